@@ -30,6 +30,114 @@ def reach_matches(stmt, root, atom_map, want):
     return True, f"reached exactly under the expected condition (tests used: {atoms})"
 
 
+def static_head(expr):
+    """The constant beginning of a message expression (string constant, f-string, concatenation)."""
+    if isinstance(expr, ast.Constant) and isinstance(expr.value, str):
+        return expr.value
+    if isinstance(expr, ast.JoinedStr):
+        out = ""
+        for v in expr.values:
+            if isinstance(v, ast.Constant) and isinstance(v.value, str):
+                out += v.value
+            else:
+                break
+        return out
+    if isinstance(expr, ast.BinOp) and isinstance(expr.op, ast.Add):
+        whole = isinstance(expr.left, ast.Constant) or (isinstance(expr.left, ast.JoinedStr) and all(isinstance(v, ast.Constant) for v in expr.left.values))
+        return static_head(expr.left) + (static_head(expr.right) if whole else "")
+    return ""
+
+
+def suppressed_by_filter(prog, log_call):
+    """Entry of config.FILTER_WARNINGS under which a warning call falls (messages with these beginnings are dropped by io.DuplicateFilter
+    after a fixed number of repetitions), or None.  A report the properties rely on must not be one of them."""
+    if not log_call.args:
+        return None
+    head = static_head(log_call.args[0])
+    for w in prog.module_constants("config.py").get("FILTER_WARNINGS", []) or []:
+        if isinstance(w, str) and head and (head.startswith(w) or w.startswith(head)):
+            return w
+    return None
+
+
+class FileSystemModel:
+    """A dictionary path -> text standing for the file system during a model evaluation, as an ObjRunner hook: open (read / write /
+    append), read, read(n), readline, readlines, iteration, write, writelines, close, pathlib.Path (name, stem, suffix, parent, is_file,
+    exists) and str(path).  read(n) hands out at most `short_read` characters at a time - the documented contract of read(size) is 'at
+    most size characters', and code that reads in blocks has to cope with a block boundary anywhere in a line."""
+
+    def __init__(self, files=None, short_read=157):
+        self.files = dict(files or {})
+        self.short_read = short_read
+        self.opened = []
+
+    @staticmethod
+    def _text(x):
+        return x["__str__"] if isinstance(x, dict) and x.get("__class__") == "<path>" else x
+
+    def path(self, src):
+        from pathlib import PurePosixPath
+        from ..guards import Obj
+        p_ = PurePosixPath(src)
+        o = Obj({"__class__": "<path>", "__str__": src, "name": p_.name, "stem": p_.stem, "suffix": p_.suffix, "suffixes": list(p_.suffixes)})
+        if str(p_.parent) != src:
+            o["parent"] = self.path(str(p_.parent))
+        return o
+
+    def hook(self, run, interp, call, args, kw):
+        from ..guards import Flow, Obj
+        name = U(call.func)
+        if name in ("Path", "pathlib.Path", "PurePath") and len(args) == 1 and isinstance(self._text(args[0]), str):
+            return self.path(self._text(args[0]))
+        if name == "str" and len(args) == 1 and isinstance(args[0], dict) and args[0].get("__class__") == "<path>":
+            return args[0]["__str__"]
+        if name == "open" and args and isinstance(self._text(args[0]), str):
+            path = self._text(args[0])
+            mode = args[1] if len(args) > 1 else kw.get("mode", "r")
+            if "w" in mode:
+                self.files[path] = ""
+            elif "a" in mode:
+                self.files.setdefault(path, "")
+            elif path not in self.files:
+                raise Flow("raise", f"FileNotFoundError({path!r})", call)
+            self.opened.append((path, mode))
+            f = Obj({"__class__": "<file>", "path": path, "mode": mode, "pos": 0})
+            f["__lines__"] = lambda f=f: self._rest(f).splitlines(keepends=True)
+            return f
+        if isinstance(call.func, ast.Attribute):
+            attr = call.func.attr
+            if attr in ("read", "readline", "readlines", "write", "writelines", "close", "flush", "is_file", "exists"):
+                recv = interp.ev(call.func.value)
+                if isinstance(recv, dict) and recv.get("__class__") == "<path>" and attr in ("is_file", "exists"):
+                    return recv["__str__"] in self.files
+                if not (isinstance(recv, dict) and recv.get("__class__") == "<file>"):
+                    return NotImplemented
+                if attr in ("close", "flush"):
+                    return None
+                if attr == "write":
+                    self.files[recv["path"]] += args[0]
+                    return len(args[0])
+                if attr == "writelines":
+                    self.files[recv["path"]] += "".join(args[0])
+                    return None
+                rest = self.files[recv["path"]][recv["pos"]:]
+                if attr == "read":
+                    n = len(rest) if not args or args[0] is None or args[0] < 0 else min(args[0], self.short_read)
+                    out = rest[:n]
+                elif attr == "readline":
+                    out = rest.splitlines(keepends=True)[0] if rest else ""
+                else:
+                    out = rest
+                recv["pos"] += len(out)
+                return out.splitlines(keepends=True) if attr == "readlines" else out
+        return NotImplemented
+
+    def _rest(self, f):
+        rest = self.files[f["path"]][f["pos"]:]
+        f["pos"] += len(rest)
+        return rest
+
+
 def rule_patch_isolation(prog, rep, rid):
     """apply_patch must give every patched residue a private copy of its reference (only PEPTIDE is applied in place)."""
     r = rep.rule(rid, "patches act on a private copy of the residue's reference; only PEPTIDE edits the shared one", floor=2)
@@ -165,6 +273,8 @@ def _pqr_model():
         ("HETATM", 1234, "O", "HOH", None, 301, None, 41.0, -22.0, 3.0, -0.834, 1.7683),
         ("HETATM", 12345, "C1", "LIG", "B", 301, None, 1.0, 2.0, -30.0, 0.1, 1.908),
         ("ATOM", 20, "CA", "FAR", None, 999, None, -123.456, 2.0, -99.999, 0.25, 1.5),  # negative coordinates that fill their eight columns
+        ("ATOM", 21, "HT1", "TER", None, 1, None, 5.0, 6.0, 7.0, 0.33, 0.2245),  # CHARMM output naming: the terminal residue is called TER
+        ("ATOM", 22, "END", "TER", "A", 2, None, 5.5, 6.5, 7.5, -0.33, 1.7),  # an atom and a residue that carry record names
     ]
     out = [("REMARK   5 box 1.0 2.0 3.0 4.0   500.000 600.000 700.000 9.0000 80.0000\n", None)]  # a comment that would count if it were parsed
     for rec in recs:
@@ -469,3 +579,84 @@ def rule_ingestion_model(prog, rep, rid, only=None):
         r.add(f"ingest|{label}", ok, f"{label}: {len(want)} residues, every record in exactly one, chains {sorted({c for c, _, _ in want})}" if ok else
               f"{label}: expected {want}, Biomolecule.__init__ builds {got}" + ("" if listed else "; self.residues does not list exactly the residues built"), where)
     r.info["methods_interpreted"] = sorted(set(run.calls))
+
+
+def rule_hidden_chains_model(prog, rep, rid):
+    """Biomolecule.set_termini is evaluated on model chains that hold several terminated molecules under one chain identifier (a
+    free C-terminus - OXT - in the middle of the chain): whatever way the chain is split, every residue must stay in exactly one chain, in
+    file order, and each resulting chain must start with the N-terminus and end with the C-terminus of one molecule."""
+    from ..guards import Flow, Obj
+    from ..objinterp import ObjRunner
+    r = rep.rule(rid, "model chains with hidden molecules: splitting keeps every residue in exactly one chain, one terminus pair per molecule", floor=3)
+    fi = prog.func("biomolecule.py", "Biomolecule.set_termini")
+    where = f"pdb2pqr/biomolecule.py:{fi.node.lineno} (Biomolecule.set_termini)"
+    scenarios = [
+        ("three molecules under chain A", [("A", [3, 3, 3])]),
+        ("two molecules under chain A, then a plain chain B", [("A", [2, 4]), ("B", [3])]),
+        ("four molecules under a blank chain identifier", [("", [1, 2, 1, 3])]),
+        ("a plain chain, then three molecules under chain B", [("A", [4]), ("B", [2, 2, 2])]),
+        ("one molecule per chain", [("A", [3]), ("B", [2])]),
+    ]
+    for label, layout in scenarios:
+        residues, chains, chainmap, molecules = [], [], {}, []
+        n = 0
+        for cid, sizes in layout:
+            ch = Obj({"__class__": "Chain", "chain_id": cid, "residues": [], "name": None})
+            chains.append(ch)
+            chainmap[cid] = ch
+            for size in sizes:
+                mol = []
+                for k in range(size):
+                    n += 1
+                    amap = {nm: Obj({"__class__": "Atom", "name": nm, "chain_id": cid, "bonds": [], "x": float(4 * n), "y": float(i_), "z": 0.0,
+                                     "__props__": {"coords": lambda a_: [a_["x"], a_["y"], a_["z"]]}})
+                            for i_, nm in enumerate(["N", "CA", "C", "O"] + (["OXT"] if k == size - 1 else []))}
+                    res = Obj({"__class__": "ALA", "name": "ALA", "__id__": f"r{n}", "chain_id": cid, "res_seq": n, "ins_code": "", "map": amap,
+                               "atoms": list(amap.values()), "is_n_term": False, "is_c_term": False, "patches": [], "missing": [], "reference": None})
+                    for a in res["atoms"]:
+                        a["residue"] = res
+                    residues.append(res)
+                    ch["residues"].append(res)
+                    mol.append(res["__id__"])
+                molecules.append(mol)
+        patched = []
+
+        def extra(runner, interp, call, args, kw, patched=patched):
+            if isinstance(call.func, ast.Attribute) and call.func.attr == "apply_patch" and len(args) == 2:
+                patched.append((args[0], args[1]["__id__"]))
+                args[1]["patches"].append(args[0])
+                return None
+            return NotImplemented
+
+        bio = Obj({"__class__": "Biomolecule", "chains": chains, "chainmap": chainmap, "residues": residues, "patch_map": {}})
+        run = ObjRunner(prog, "biomolecule.py", extra_hook=extra)
+        try:
+            run.call(bio, "set_termini")
+        except Flow as fl:
+            r.bad(f"split|{label}", f"set_termini stops with {fl.value}", where)
+            continue
+        got = [[x["__id__"] for x in ch["residues"]] for ch in bio["chains"]]
+        flat = [i for ch in got for i in ch]
+        problems = []
+        if sorted(flat) != sorted(i for m in molecules for i in m):
+            lost = sorted(set(i for m in molecules for i in m) - set(flat), key=lambda s_: int(s_[1:]))
+            twice = sorted({i for i in flat if flat.count(i) > 1})
+            problems.append(f"residues in no chain: {lost}; in more than one: {twice}")
+        if sorted(map(tuple, got)) != sorted(map(tuple, molecules)):
+            problems.append(f"chains {got} are not the molecules {molecules}")
+        nterm = sorted(x["__id__"] for x in residues if x["is_n_term"])
+        cterm = sorted(x["__id__"] for x in residues if x["is_c_term"])
+        if nterm != sorted(m[0] for m in molecules) or cterm != sorted(m[-1] for m in molecules):
+            problems.append(f"N-termini {nterm}, C-termini {cterm}; expected {sorted(m[0] for m in molecules)} / {sorted(m[-1] for m in molecules)}")
+        per_res = {}
+        for pn, rid_ in patched:
+            per_res.setdefault(rid_, []).append(pn)
+        # (a terminal patch may be applied more than once to the same end: the patches are idempotent, which C02 decides on the tables)
+        wrong = {k: v for k, v in per_res.items() if (k not in {m[0] for m in molecules} and any(p_.endswith("NTERM") for p_ in v))
+                 or (k not in {m[-1] for m in molecules} and any(p_.endswith("CTERM") for p_ in v))}
+        if wrong:
+            problems.append(f"terminal patches applied to a residue that is not that end of a molecule: {wrong}")
+        ids = [sorted({x["chain_id"] for x in ch["residues"]} | {a["chain_id"] for x in ch["residues"] for a in x["atoms"]}) for ch in bio["chains"]]
+        if any(len(i) != 1 for i in ids) or len({i[0] for i in ids if i}) != len(ids):
+            problems.append(f"chain identifiers carried by the residues and atoms of the chains: {ids} (one per chain, all different, expected)")
+        r.add(f"split|{label}", not problems, f"{label}: " + ("; ".join(problems) if problems else f"chains after splitting {got}"), where)
